@@ -15,8 +15,8 @@ import (
 // no source. A field that is silently left at its zero value is data the client supplied and never
 // gets back.
 var completenessExempt = map[string]string{
-	"pb.ClaimTaskResponse.Mesg":             "only a claimed task has a message (set by assignment under the claimed status)",
-	"pb.CreatePromiseAndTaskResponse.Task":  "only when the task was created with the promise",
+	"pb.ClaimTaskResponse.Mesg":            "only a claimed task has a message (set by assignment under the claimed status)",
+	"pb.CreatePromiseAndTaskResponse.Task": "only when the task was created with the promise",
 }
 
 func ruleConverterCompleteness(c *Ctx) {
